@@ -60,7 +60,14 @@ class InitMethod(MethodDescriptor):
                             # Not a constructor argument of the parent.
                             continue
                         if attr in kwargs:
-                            parent_kwargs[attr] = kwargs.pop(attr)
+                            # The parent constructor will not copy (it sees
+                            # that it is not the instance's own class), so the
+                            # caller's object is protected here.
+                            parent_kwargs[attr] = (
+                                kwargs.pop(attr)
+                                if instance_attr_spec.do_not_copy
+                                else protect_via_deepcopy(kwargs.pop(attr))
+                            )
                         else:
                             # Parent constructor may may be overridden, and not pick up
                             # subclass defaults. We pre-emptively solve this here.
